@@ -87,6 +87,16 @@ PROPS = {
         "not_covered": ["BOUNDED only (replay/shutdown_driver on the real crate, never counted as proved): from the end of the requesting event until the restart no handler, task or timer of the module runs (also not later), messages addressed to it or passing its gates in that window are dropped for good, Module::reset runs exactly once, the start-up stages run exactly once more at exactly the restart time, afterwards the module behaves like a freshly started one (new tasks tick, messages are handled), and the other modules and links are unaffected",
                         "(not proved) ModuleRef::{handle_message, async_wakeup, module_restart, reset} (RefCell / atomics behind &self, tokio harness), AsyncExt::reset and the tokio runtime shutdown, ModuleRestartEvent::handle, the shutdown API that sets the flag"],
     },
+    "C13": {
+        "bundles": ["panicflow"],
+        "fns": {"panicflow": ["Harness::catch", "Harness::pass", "SimLifecycle@EventLifecycle::at_sim_start", "SimLifecycle@EventLifecycle::at_sim_end"]},
+        "assumptions": ["catch_unwind has no semantics in the verifier: Harness::exec is outside the unit; the unit starts at its result, the field `unwind`",
+                        "shims: Harness / PanicError with the payload as an opaque value, ModuleContext with the stereotype flag and the path as uninterpreted functions; the deactivation store (`active.store(false)`) is a call without a contract (a store through a shared reference cannot be stated)",
+                        "error accumulation: RuntimeError::items() is the abstract content of the run's error object (extend / merge append: assumed), a ghost list collects at the real call sites what the module callbacks return; every callee outside the unit reports what it adds to the run's error (buf_process, the application's hooks) or does not touch it (deactivate)"],
+        "not_covered": ["BOUNDED only (replay/panic_driver on the real crate, never counted as proved): the simulator never aborts; from its panic on the faulty module handles no message, echoes nothing and its timers do not fire during the run; the other modules see exactly what they would see had it fallen silent and are torn down once; run() lists exactly the panicked module, or succeeds if its stereotype catches panics; a subsequent simulation in the same process behaves normally",
+                        "(not proved) Harness::exec (catch_unwind, tokio block_on), the deactivation itself, ModuleRef::{handle_message, at_sim_start, at_sim_end, async_wakeup} that map a caught panic to an Err, panic hook, joined tasks (JoinError)",
+                        "tolerated by the driver, recorded as observations O7 / O8: a task of the faulty module is polled once more inside its at_sim_end; the later start-up stages of a module that panicked in an earlier stage still run"],
+    },
     "C19": {
         "bundles": ["topology"],
         "fns": {"topology": ["Topology::bidirectional", "Topology::connected", "Topology::connected::visit"]},
